@@ -323,6 +323,11 @@ def _check(pid, tier, verif_seed, repo, nlanes, replay=None, runs=None, wall_cap
         evp = os.path.join(VERIF, "evidence", "%s.json" % pid)
         with open(evp, "w") as fh:
             json.dump(ev, fh, indent=1, sort_keys=True)
+        # a copy per tier, so that the deeper exploration of the thorough tier stays on record when a
+        # later quick run rewrites evidence/<id>.json
+        os.makedirs(os.path.join(VERIF, "evidence", "by_tier"), exist_ok=True)
+        with open(os.path.join(VERIF, "evidence", "by_tier", "%s.%s.json" % (pid, tier)), "w") as fh:
+            json.dump(ev, fh, indent=1, sort_keys=True)
         v = validate_evidence(evp)
         if v.startswith("INVALID"):
             lines.append("HARNESS-ERROR property=%s evidence %s" % (pid, v))
